@@ -1,12 +1,15 @@
 """C06: the virtual link connects the right peers and delivers only between them.
 
-(M) specs/Link/Link.tla model-checked by TLC: devices with a public and a random address, own-address
-    choice per role, legacy / extended advertising, LE and BR/EDR, pending create-connection,
+(M) specs/Link/Link.tla model-checked by TLC: devices with a public and a random address and an
+    advertising-set address of its own, own-address choice per role, legacy / extended advertising,
+    LE and BR/EDR (one awaited connect per device and transport, also towards the same peer),
+    (e)SCO links as further entries of the link tables, pending create-connection,
     connection tables of controllers and hosts, per-connection FIFOs, disconnect by either side,
     passive / active scanning.  Several small configurations per tier (routing with every address
     combination, a device central and peripheral at once with an incoming connection completing while
     the outgoing one is pending, two initiators racing for one advertiser, full HCI-delay
-    non-determinism on one pair, LE next to BR/EDR, scanning); invariants RightPeer, CallerGets,
+    non-determinism on one pair, LE next to BR/EDR, an (e)SCO link with further links made while it is up,
+    both transports between one pair with public addresses, advertising-set addresses, scanning); invariants RightPeer, CallerGets,
     Handles, OnlyPeer, LiveOnly, AdvData and, at quiescence, BothTold, Delivered, CallsDone, ScanGiven.
 (A+B) a fixed catalogue of directed scenarios and TLC-simulated behaviours of Link.tla are executed on
     N real Devices (lib.c06_rig.World: LocalLink, seeded order-preserving HCI and link delays,
@@ -18,6 +21,7 @@
 """
 from __future__ import annotations
 
+import asyncio
 import copy
 import json
 import os
@@ -30,15 +34,17 @@ LEVEL = "model_checking"
 
 INVS = ["TypeOK", "RightPeer", "CallerGets", "Handles", "OnlyPeer", "LiveOnly", "AdvData", "BothTold", "Delivered", "CallsDone", "ScanGiven"]
 ALL_ACTIONS = ["StartAdv", "StopAdvCall", "StopAdv", "SetScan", "HearAdv", "HearRsp", "Advert", "Call", "LinkConnect", "ConnectInd", "ConnFail",
-               "ClassicAccept", "ClassicAccepted", "HostEvt", "RetConnect", "Send", "LinkDrop", "LinkData", "LinkTerm", "Disconnect",
+               "ClassicAccept", "ClassicAccepted", "ScoCall", "ScoAccept", "ScoAccepted", "HostEvt", "RetConnect", "Send", "LinkDrop", "LinkData", "LinkTerm", "Disconnect",
                "CtrlDisc", "CtrlDiscRefused", "Quiesce"]
 LE_CORE = ["StartAdv", "Call", "LinkConnect", "ConnectInd", "HostEvt", "RetConnect", "Quiesce"]
 DATA = ["Send", "LinkData"]
 DISC = ["Disconnect", "CtrlDisc", "LinkTerm"]
+CLASSIC = ["ClassicAccept", "ClassicAccepted"]
+SCO = ["ScoCall", "ScoAccept", "ScoAccepted"]
 
 BASE = dict(Devs=[1, 2, 3], Advs=[1, 3], Inits=[1, 2], Ext=[], Transports=["le"], Scanning=False,
             OwnKinds=["pub", "rnd"], AdvKinds=["pub", "rnd"], EagerHost=True, StaleAdv=False,
-            MaxConns=2, MaxPdus=1, MaxSends=2, MaxAdv=2, MaxStop=0, MaxCalls=2, MaxDisc=1, MaxScan=0, MaxH=2, AnyHandle=False, Bugs=[])
+            MaxConns=2, MaxPdus=1, MaxSends=2, MaxAdv=2, MaxStop=0, MaxCalls=2, MaxDisc=1, MaxScan=0, MaxSco=0, MaxH=2, AnyHandle=False, Bugs=[])
 
 # name -> (constants, actions that must be taken)
 MC_QUICK = {
@@ -58,6 +64,17 @@ MC_QUICK = {
     # scanners (passive / active), legacy and extended advertisers, a device that scans and advertises
     "scanning": (dict(Advs=[1, 2], Inits=[], Ext=[2], Scanning=True, MaxConns=0, MaxCalls=0, MaxAdv=2, MaxStop=0, MaxScan=2, MaxSends=0, MaxDisc=0, AdvKinds=["rnd"]),
                  ["StartAdv", "SetScan", "HearAdv", "HearRsp", "Advert", "Quiesce"]),
+    # an (e)SCO link on a BR/EDR connection, then further links (a page by 3, an LE connection to 3) on the controllers that hold it:
+    # every link table counts when a handle is allocated; the (e)SCO link is disconnected by either side
+    "sco-and-further-links": (dict(Advs=[3], Inits=[1], Transports=["le", "br"], MaxConns=3, MaxAdv=1, MaxCalls=2, MaxSco=1, MaxSends=0, MaxDisc=1, MaxH=3,
+                                   AdvKinds=["rnd"], OwnKinds=["rnd"]), LE_CORE + CLASSIC + SCO + DISC),
+    # one pair, both transports, public addresses only (the same address on LE and BR/EDR), either device initiates on either
+    # transport, any HCI delay: the LE connection completes while the page is pending and the other way round
+    "both-transports-same-peer": (dict(Devs=[1, 2], Advs=[1, 2], Inits=[1, 2], Transports=["le", "br"], EagerHost=False, MaxConns=2, MaxAdv=1, MaxCalls=2, MaxSends=1,
+                                       MaxDisc=0, AdvKinds=["pub"], OwnKinds=["pub"]), LE_CORE + CLASSIC + DATA),
+    # extended advertising sets with a random address of their own (next to one that uses the controller's), data both ways,
+    # disconnect by either side
+    "advertising-set-address": (dict(Advs=[2, 3], Inits=[1], Ext=[2, 3], MaxConns=1, MaxCalls=1, MaxSends=2, MaxDisc=1, AdvKinds=["set", "rnd"]), LE_CORE + DATA + DISC),
 }
 MC_THOROUGH = dict(MC_QUICK)
 MC_THOROUGH.update({
@@ -79,6 +96,13 @@ MC_THOROUGH.update({
                               ["Call", "ClassicAccept", "ClassicAccepted", "HostEvt", "RetConnect", "Quiesce"] + DATA + DISC),
     "scanning-2": (dict(Advs=[1, 2], Inits=[], Ext=[2], Scanning=True, MaxConns=0, MaxCalls=0, MaxAdv=2, MaxStop=1, MaxScan=2, MaxSends=0, MaxDisc=0),
                    ["StartAdv", "StopAdvCall", "StopAdv", "SetScan", "HearAdv", "HearRsp", "Advert", "Quiesce"]),
+    # as quick, with 3 initiating too (the further link arrives at either end of the (e)SCO link, from either side)
+    "sco-and-further-links-2": (dict(Advs=[3], Inits=[1, 3], Transports=["le", "br"], MaxConns=3, MaxAdv=1, MaxCalls=2, MaxSco=1, MaxSends=0, MaxDisc=1, MaxH=3,
+                                     AdvKinds=["rnd"], OwnKinds=["rnd"]), LE_CORE + CLASSIC + SCO + DISC),
+    "both-transports-same-peer-disconnect": (dict(Devs=[1, 2], Advs=[1, 2], Inits=[1, 2], Transports=["le", "br"], EagerHost=False, MaxConns=2, MaxAdv=1, MaxCalls=2,
+                                                  MaxSends=1, MaxDisc=1, AdvKinds=["pub"], OwnKinds=["pub", "rnd"]), LE_CORE + CLASSIC + DATA + DISC),
+    # 1 central to two advertising sets / a set and a controller-address advertiser at once
+    "advertising-set-address-2": (dict(Advs=[2, 3], Inits=[1], Ext=[2, 3], MaxSends=2, MaxDisc=1, AdvKinds=["set", "rnd"]), LE_CORE + DATA + DISC),
 })
 
 # named deviation of the model -> (constants to reach it, invariant it must break)
@@ -93,13 +117,18 @@ BUGS = {
     "no_disc_event": (dict(Devs=[1, 2], Advs=[2], Inits=[1], MaxConns=1, MaxAdv=1, MaxCalls=1, MaxSends=0, MaxDisc=1), "BothTold"),
     "phantom": (dict(Advs=[3], Inits=[1, 2], MaxAdv=1, MaxSends=0, MaxDisc=0, AdvKinds=["rnd"], OwnKinds=["rnd"]), "BothTold"),
     "handle_ignores_classic": (dict(Devs=[1, 2], Advs=[2], Inits=[1], Transports=["le", "br"], MaxAdv=1, MaxSends=0, MaxDisc=0, AdvKinds=["rnd"], OwnKinds=["rnd"]), "Handles"),
+    "handle_ignores_sco": (dict(Advs=[], Inits=[1, 3], Transports=["br"], MaxConns=3, MaxAdv=0, MaxSco=1, MaxSends=0, MaxDisc=0, MaxH=3), "Handles"),
+    "connect_ignores_transport": (dict(Devs=[1, 2], Advs=[2], Inits=[1], Transports=["le", "br"], EagerHost=False, MaxAdv=1, MaxSends=0, MaxDisc=0,
+                                       AdvKinds=["pub"], OwnKinds=["pub"]), "CallerGets"),
+    "route_by_controller_addr": (dict(Devs=[1, 2], Advs=[2], Inits=[1], Ext=[2], MaxConns=1, MaxAdv=1, MaxCalls=1, MaxSends=1, MaxDisc=0, AdvKinds=["set"]), "Delivered"),
 }
 
 SIM = dict(Devs=[1, 2, 3, 4], Advs=[1, 2, 3, 4], Inits=[1, 2, 3], Ext=[2, 4], Transports=["le", "br"], Scanning=True, EagerHost=False,
-           MaxConns=4, MaxPdus=3, MaxSends=8, MaxAdv=5, MaxStop=1, MaxCalls=4, MaxDisc=2, MaxScan=2, MaxH=4)
+           AdvKinds=["pub", "rnd", "set"], MaxConns=5, MaxPdus=3, MaxSends=8, MaxAdv=5, MaxStop=1, MaxCalls=5, MaxDisc=2, MaxScan=2, MaxSco=1, MaxH=5)
 
 TRACE = dict(Devs=[1, 2, 3, 4], Advs=[1, 2, 3, 4], Inits=[1, 2, 3, 4], Ext=[1, 2, 3, 4], Transports=["le", "br"], Scanning=True, EagerHost=False,
-             StaleAdv=True, MaxConns=16, MaxPdus=200, MaxSends=5000, MaxAdv=500, MaxStop=500, MaxCalls=500, MaxDisc=500, MaxScan=500, MaxH=8, AnyHandle=True)
+             AdvKinds=["pub", "rnd", "set"], StaleAdv=True, MaxConns=16, MaxPdus=200, MaxSends=5000, MaxAdv=500, MaxStop=500, MaxCalls=500, MaxDisc=500,
+             MaxScan=500, MaxSco=500, MaxH=8, AnyHandle=True)
 
 
 def _tick(rep, key, dt):
@@ -142,7 +171,7 @@ def model_check(ctx, rep):
         cfg = _write(ctx, f"link_{name}.cfg", cfg_text(consts))
         return tlc.mc(spec, cfg, workers=2 if ctx.quick else 6, timeout=1500 if ctx.quick else 3000)
 
-    with ThreadPoolExecutor(max_workers=6 if ctx.quick else 3) as ex:
+    with ThreadPoolExecutor(max_workers=9 if ctx.quick else 3) as ex:
         results = list(ex.map(one, runs.items()))
     taken = {}
     for (name, (consts, must)), res in zip(runs.items(), results):
@@ -225,6 +254,11 @@ def _rec(x):
     return x if isinstance(x, dict) else dict(x)
 
 
+def _peer_class(c):
+    """the destination is the own random address of an advertising set: part of the input class"""
+    return ":peer-address=set" if c.get("peer") == "set" else ""
+
+
 def sig_of(v, events):
     """stable name of the clause a rejected trace fails: (sig, what)"""
     line, ev = v[1], v[2]
@@ -240,7 +274,7 @@ def sig_of(v, events):
     if e == "advert":
         return f"device:advertisement:payload={ev['what']}", "an 'advertisement' event carries neither the advertiser's advertising data nor that followed by its scan-response data"
     if e in ("ret_connect", "ret_err"):
-        tr = next((x["tr"] for x in reversed(events[:line]) if x["e"] == "connect" and x["d"] == ev["d"]), "le")
+        tr = ev.get("ctr") or next((x["tr"] for x in reversed(events[:line]) if x["e"] == "connect" and x["d"] == ev["d"]), "le")
         fn = "connect_le" if tr == "le" else "connect_classic"
         if e == "ret_err":
             return f"device:{fn}:raises", "Device.connect raised although its target could be reached"
@@ -267,12 +301,12 @@ def sig_of(v, events):
         if lost:
             # the terminate of a disconnection arrives while PDUs sent before it have not: they are lost (same FIFO)
             c = lost[0]
-            return f"link:acl:{c['tr']}:lost:sender-address={c['own']}", (
+            return f"link:acl:{c['tr']}:lost:sender-address={c['own']}" + _peer_class(c), (
                 f"a PDU sent on a live {c['tr']} connection (sender's own address {c['own']}, peer address {c['peer']}) has not reached the peer when the later disconnection does")
         return "controller:disconnection-complete:unexpected", "a Disconnection Complete that nobody asked for"
     if e == "disc_evt":
         return "device:disconnection-event:unexpected", "a 'disconnection' event without a Disconnection Complete"
-    if e in ("send", "disconnect", "connect", "adv", "advstop", "scan"):
+    if e in ("send", "disconnect", "connect", "adv", "advstop", "scan", "sco"):
         return f"scenario:{e}:not-applicable", f"the scenario's own {e} call does not fit the model (harness or spec bug?)"
     if e == "settle":
         if diag.get("setup"):
@@ -282,8 +316,8 @@ def sig_of(v, events):
         if diag.get("undelivered"):
             c = diag["undelivered"][0]
             if c.get("term"):
-                return f"link:terminate:{c['tr']}:peer-not-told", "a disconnection is never reported to the peer's host"
-            return f"link:acl:{c['tr']}:lost:sender-address={c['own']}", (
+                return f"link:terminate:{c['tr']}:peer-not-told" + _peer_class(c), "a disconnection is never reported to the peer's host"
+            return f"link:acl:{c['tr']}:lost:sender-address={c['own']}" + _peer_class(c), (
                 f"a PDU sent on a live {c['tr']} connection by the {'central' if c['side'] == 'c' else 'peripheral'} (own address {c['own']}, peer address {c['peer']}) never reaches the peer")
         if diag.get("unpopped"):
             t = sorted(diag["unpopped"])[0]
@@ -340,7 +374,8 @@ def run(ctx, rep):
     from lib import c06_scen as S
 
     rep.rule = ("(M) Link.tla exhaustively within the constants of each configuration; (A+B) every scenario of the fixed catalogue (address kinds x "
-                "legacy / extended advertising x controllers with / without the extended commands x LE / BR/EDR x who disconnects x scanners "
+                "legacy / extended advertising / advertising sets with their own random address x controllers with / without the extended commands x LE / BR/EDR x "
+                "both transports between one pair x (e)SCO links with further links made while they are up x who disconnects x scanners "
                 "x delay configurations) plus TLC-simulated behaviours of Link.tla (quick 40, thorough 400) executed on 2..4 real Devices; one trace per "
                 "scenario validated by LinkTrace.tla; distinct = distinct (configuration, operation sequence)")
     rep.assumptions = [
@@ -348,6 +383,8 @@ def run(ctx, rep):
         "two devices never initiate connections towards each other at the same time on one transport, and a pair is reconnected only after both controllers dropped the old link (Link.tla: Crossing, Linked)",
         "a connection created by an initiator whose CONNECT_IND nobody accepts must be reported as disconnected to that initiator (Link.tla: ConnFail)",
         "a scan-response report given to a passive scanner is tolerated (DESIGN Appendix D)",
+        "the virtual controller refuses a page while its LE create-connection is pending (Controller Busy): no scenario pages then; an LE connect next to a pending page is exercised",
+        "a BR/EDR connection is not disconnected while an (e)SCO link on it is being set up, up or being torn down; the application accepts every (e)SCO request",
         "test PDUs fit one ACL fragment (fragmentation is C05's subject); bumble's HCI parser is used to read the tap (C01's subject)",
     ]
     from concurrent.futures import ThreadPoolExecutor
@@ -436,10 +473,27 @@ def selftest(ctx, rep):
         "trace:t2-disc-dropped": lambda t: t.pop(idx("t2_disc", 1)),
         "trace:spurious-disc": lambda t: t.insert(idx("send", 0), dict(t[idx("t2_disc", 0)])),
         "trace:handle-in-use": lambda t: t.insert(idx("send", 0), dict(t[idx("t2_conn", 0, d=2)])),
+        "trace:ret-connect-of-the-other-transport": lambda t: t[idx("ret_connect")].__setitem__("ctr", "br"),
     }
     names = list(cases)
     verdicts = validate(ctx, None, [ev] + [mutate(cases[n]) for n in names], tag="c06self")
     results["trace:unmodified-accepted"] = verdicts[0][0] == "ACCEPT"
+    for n, v in zip(names, verdicts[1:]):
+        results[n] = v[0] == "REJECT"
+
+    # ... and a trace with an (e)SCO link, further links made while it is up, and both transports
+    sco_sc = S.sco_links(1, 2, ctx.seed + 5)
+    ev = execute([sco_sc])[0]["events"]
+    acl_h = ev[idx("t2_conn", 0, d=2, tr="br")]["h"]
+    cases = {
+        "trace:sco-given-the-handle-of-the-acl": lambda t: t[idx("t2_conn", 0, d=2, tr="sco")].__setitem__("h", acl_h),
+        "trace:sco-connection-at-bystander": lambda t: t[idx("t2_conn", 0, d=2, tr="sco")].__setitem__("d", 3),
+        "trace:sco-disconnection-not-reported-to-peer": lambda t: t.pop(idx("disc_evt", 0, d=1)),
+        "trace:sco-requested-twice": lambda t: t.insert(idx("sco") + 1, dict(t[idx("sco")])),
+    }
+    names = list(cases)
+    verdicts = validate(ctx, None, [ev] + [mutate(cases[n]) for n in names], tag="c06self")
+    results["trace:sco:unmodified-accepted"] = verdicts[0][0] == "ACCEPT"
     for n, v in zip(names, verdicts[1:]):
         results[n] = v[0] == "REJECT"
 
@@ -503,6 +557,30 @@ def selftest(ctx, rep):
         c = w.stacks[2].controller
         c.allocate_connection_handle = lambda: 1
 
+    def shim_handle_ignores_sco(w):
+        c = w.stacks[2].controller
+        c.allocate_connection_handle = lambda: next(
+            h for h in range(1, 0xEFF) if all(x.handle != h for t in (c.le_connections, c.classic_connections) for x in t.values()))
+
+    def shim_page_resolved_by_any_transport(w):
+        from bumble.core import PhysicalTransport
+
+        d = w.dev(1)
+        orig = d.connect
+
+        async def connect(address, transport=PhysicalTransport.LE, **k):
+            if transport != PhysicalTransport.BR_EDR:
+                return await orig(address, transport=transport, **k)
+            first = asyncio.get_running_loop().create_future()
+            d.on("connection", lambda c: c.peer_address == address and not first.done() and first.set_result(c))
+            w.tasks.append(asyncio.get_running_loop().create_task(orig(address, transport=transport, **k)))
+            return await first
+
+        d.connect = connect
+
+    def shim_route_by_controller_address(w):
+        w.link.find_le_controller = lambda a: next((c for c in w.link.controllers if a in (c.random_address, c.public_address)), None)
+
     star = S.star("rnd", "rnd", "rnd", "rnd", ctx.seed + 2)
     star_noscan = dict(star, ops=[o for o in star["ops"] if o[0] != "scan"])
     two_adv = dict(name="two-advertisers", cfg=dict(star["cfg"], ext=[]), ops=[("adv", 2, "rnd", "legacy"), ("adv", 3, "rnd", "legacy"), ("connect", 1, "le", 2, "rnd", "rnd"), ("settle",)])
@@ -517,6 +595,11 @@ def selftest(ctx, rep):
         "shim:peer-host-not-told": (shim_peer_not_told, good_sc, ("link:terminate:le:peer-not-told", "host:hci-event-not-reported:disc")),
         "shim:connect-returns-first-connection": (shim_connect_returns_first, inc, ("device:connect_le:returns-another-connection:role=peripheral",)),
         "shim:handle-reused": (shim_same_handle, mixed, ("controller:connection-handle:in-use",)),
+        "shim:handle-allocation-overlooks-sco-links": (shim_handle_ignores_sco, sco_sc, ("controller:connection-handle:in-use",)),
+        "shim:page-resolved-by-a-connection-of-any-transport": (shim_page_resolved_by_any_transport, S.both_transports("le-first", "pub", ctx.seed + 6),
+                                                                ("device:connect_classic:returns-another-connection",)),
+        "shim:link-routes-by-the-controllers-own-addresses": (shim_route_by_controller_address, S.pair("rnd", "set", "ext", {2}, 1, ctx.seed + 7),
+                                                              ("link:acl:le:lost:sender-address=rnd:peer-address=set",)),
     }
     shim_runs = [execute([sc], patch=patch)[0] for (patch, sc, _) in shims.values()]
     verdicts = validate(ctx, None, [r["events"] for r in shim_runs], tag="c06self")
